@@ -88,29 +88,88 @@ func (e *expr) bound(wlen map[int]int) int {
 }
 
 // interleaves: obs is an interleaving of prefixes of the strands (of the whole strands if full).
+// Search over position vectors with dead states memoised; strands with identical content (the
+// copies of one source that a merge collects) are interchangeable: their positions are kept
+// sorted in the key and only the first of several strands of one group at the same position is
+// tried, so that the search stays polynomial on the shapes the generator builds.
 func interleaves(full bool, obs []Item, strs [][]Item) bool {
-	if len(obs) == 0 {
-		if !full {
-			return true
-		}
-		for _, s := range strs {
-			if len(s) != 0 {
-				return false
+	k := len(strs)
+	group := make([]int, k) // index of the first strand with the same content
+	for i := range strs {
+		group[i] = i
+		for j := 0; j < i; j++ {
+			if len(strs[j]) == len(strs[i]) && isPrefix(strs[j], strs[i]) {
+				group[i] = group[j]
+				break
 			}
 		}
-		return true
 	}
-	for i, s := range strs {
-		if len(s) > 0 && s[0] == obs[0] {
-			rest := make([][]Item, len(strs))
-			copy(rest, strs)
-			rest[i] = s[1:]
-			if interleaves(full, obs[1:], rest) {
+	pos := make([]int, k)
+	dead := map[string]bool{}
+	key := func() string {
+		// positions of one group in descending order
+		b := make([]byte, 0, 3*k)
+		used := make([]bool, k)
+		for i := 0; i < k; i++ {
+			if used[i] {
+				continue
+			}
+			var ps []int
+			for j := i; j < k; j++ {
+				if group[j] == group[i] {
+					used[j] = true
+					ps = append(ps, pos[j])
+				}
+			}
+			sortInts(ps)
+			for _, p := range ps {
+				b = append(b, byte(p), byte(p>>8), ',')
+			}
+			b = append(b, ';')
+		}
+		return string(b)
+	}
+	var rec func(t int) bool
+	rec = func(t int) bool {
+		if t == len(obs) {
+			if !full {
 				return true
 			}
+			for i := range strs {
+				if pos[i] != len(strs[i]) {
+					return false
+				}
+			}
+			return true
 		}
+		ky := key()
+		if dead[ky] {
+			return false
+		}
+		for i := range strs {
+			if pos[i] < len(strs[i]) && strs[i][pos[i]] == obs[t] {
+				dup := false // an earlier strand of the same group at the same position was tried
+				for j := 0; j < i; j++ {
+					if group[j] == group[i] && pos[j] == pos[i] {
+						dup = true
+						break
+					}
+				}
+				if dup {
+					continue
+				}
+				pos[i]++
+				ok := rec(t + 1)
+				pos[i]--
+				if ok {
+					return true
+				}
+			}
+		}
+		dead[ky] = true
+		return false
 	}
-	return false
+	return rec(0)
 }
 
 func isPrefix(a, b []Item) bool {
